@@ -340,7 +340,7 @@ Lemma step_sound p d f u f' st : sem f p d st -> safe_step f u = Some f' ->
   uop_step p d st u <> Panic /\
   forall st', uop_step p d st u = Ok (UCont st') -> sem f' p d st'.
 Proof.
-  intros Hs Hstep. destruct u as [c u'|s e|s fld w en acc|s fld e|s fld t e|s fld t|s|a|x e|s|txt];
+  intros Hs Hstep. destruct u as [c u'|s e|s fld w en acc|s fld e|s fld w en e|s fld t e|s fld t|s|a|x e|s|txt];
     cbn [safe_step uop_step] in *.
   - (* UIf: handled by step_sound2 *) discriminate.
   - (* UGuard *)
@@ -373,6 +373,13 @@ Proof.
     { destruct e; try (destruct (_ && _); [inversion Hstep; reflexivity|discriminate]).
       destruct (in_range f s); [inversion Hstep; reflexivity|discriminate]. }
     subst f'. apply forget_field_sem. exact Hs.
+  - (* UIntArr *)
+    destruct (simple e && entails f s e) eqn:E; [|discriminate]. inversion Hstep; subst f'; clear Hstep.
+    assert (A : exists w0, window (stream_of s p d) st e = Ok w0).
+    { destruct (access_ok f s e p d st Hs) as [w0 [Hw _]]; [|eauto].
+      destruct e; try exact E. apply andb_true_iff in E. destruct E as [E _]. discriminate. }
+    destruct A as [win Hw]. rewrite Hw. cbn [bind]. split; [discriminate|].
+    intros st' E'. inversion E'; subst st'. apply forget_field_sem. exact Hs.
   - (* UNested *)
     destruct (known_nested t) eqn:K; cbn [negb] in Hstep; [|discriminate].
     assert (A : (match e with ERest => in_range f s = true | _ => simple e && entails f s e = true end) /\
@@ -440,7 +447,7 @@ Proof.
             uop_step p d st u <> Panic /\ forall st', uop_step p d st u = Ok (UCont st') -> sem2 a' p d st').
   { intros f' E ->. destruct (step_sound p d (fst a) u f' st (proj1 Hs) E) as [T C].
     split; [exact T|]. intros st' Est. split; [apply C; exact Est|exact I]. }
-  destruct u as [c u'|s e|s fld w en acc|s fld e|s fld t e|s fld t|s|al|x e|s|txt];
+  destruct u as [c u'|s e|s fld w en acc|s fld e|s fld w en e|s fld t e|s fld t|s|al|x e|s|txt];
     try (revert Hstep; cbn [safe_step2];
          destruct (safe_step (fst a) _) as [f'|] eqn:E; intros Hstep; [|discriminate]; inversion Hstep; subst a';
          apply (Plain f'); reflexivity).
@@ -452,7 +459,7 @@ Proof.
       destruct (step_sound p d (base_of a c) u' fc' st (base_of_sem a c p d st Hs Hc) E) as [T C].
       split; [exact T|]. intros st' Est. split; cbn [fst snd].
       * (* what still holds unconditionally *)
-        destruct u' as [c2 u2|s e|s fld w en acc|s fld e|s fld t e|s fld t|s|al|x e|s|txt]; cbn [cond_body] in Cb; try discriminate;
+        destruct u' as [c2 u2|s e|s fld w en acc|s fld e|s fld w en e|s fld t e|s fld t|s|al|x e|s|txt]; cbn [cond_body] in Cb; try discriminate;
           cbn [uncond_after]; try exact I.
         -- (* UGuard: the state is unchanged *)
            cbn [uop_step] in Est.
@@ -466,10 +473,14 @@ Proof.
            cbn [uop_step] in Est.
            destruct (window _ _ _) as [win| |]; cbn [bind] in Est; try discriminate.
            inversion Est; subst st'. apply forget_field_sem. exact (proj1 Hs).
+        -- (* UIntArr *)
+           cbn [uop_step] in Est.
+           destruct (window _ _ _) as [win| |]; cbn [bind] in Est; try discriminate.
+           inversion Est; subst st'. apply forget_field_sem. exact (proj1 Hs).
       * intros _. apply C. exact Est.
     + (* the block is skipped: the state is unchanged *)
       split; [discriminate|]. intros st' Est. inversion Est; subst st'. split; cbn [fst snd].
-      * destruct u' as [c2 u2|s e|s fld w en acc|s fld e|s fld t e|s fld t|s|al|x e|s|txt]; cbn [cond_body] in Cb; try discriminate;
+      * destruct u' as [c2 u2|s e|s fld w en acc|s fld e|s fld w en e|s fld t e|s fld t|s|al|x e|s|txt]; cbn [cond_body] in Cb; try discriminate;
           cbn [uncond_after]; try exact I; try exact (proj1 Hs); apply forget_field_weaken; exact (proj1 Hs).
       * intros Hc'. congruence.
   - (* ULet *)
